@@ -1,2 +1,4 @@
 pub mod fs;
 pub mod metrics;
+#[cfg(resolved_verif)]
+pub mod verif;
